@@ -180,11 +180,11 @@ def run(ctx):
                   wgs84.earth_rate_n(phi) - frames.C_en(phi, lam).T * omega_e)
 
     # ---- parity in latitude (on the code's own expressions) -------------------------------
-    _parity(ctx, py)
+    ctx.guard(_parity, ctx, py)
 
     # ---- ECEF -> LLA ------------------------------------------------------------------------
-    _ecef_to_lla(ctx, py)
-    _olson_standin(ctx, py)
+    ctx.guard(_ecef_to_lla, ctx, py)
+    ctx.guard(_olson_standin, ctx, py)
 
 
 # ---------------------------------------------------------------------------------------------
